@@ -84,30 +84,49 @@ def urlParse (raw : Bytes) : Option (Bytes × Bytes × Bytes) :=
         | some h => some (scheme, h, path)
       else some (scheme, [], rest)
 
+/-- how standardizeAddress separates host and port of the URL's host: SplitHostPort, then SplitHostPort with ":" appended
+(no port written), else the whole thing -/
+def splitURLHost (uhost : Bytes) : Bytes × Bytes :=
+  match splitHostPort uhost with
+  | some hp => hp
+  | none => match splitHostPort (uhost ++ b!":") with
+    | some hp => hp
+    | none => (uhost, [])
+
+/-- the second half of standardizeAddress, after net/url.Parse: host/port split, port from the scheme, the convention
+check, scheme from the port -/
+def finishStandardize (input scheme uhost path : Bytes) : Except AddrErr Address :=
+  let (host, port) := splitURLHost uhost
+  let port := if port.isEmpty then
+      (if scheme == b!"http" then httpPort else if scheme == b!"https" then httpsPort else port)
+    else port
+  if (scheme == b!"http" && port == httpsPort) || (scheme == b!"https" && port == httpPort) then .error .convention
+  else
+    let scheme := if scheme.isEmpty then
+        (if port == httpPort then b!"http" else if port == httpsPort then b!"https" else scheme)
+      else scheme
+    .ok { original := input, scheme := scheme, host := host, port := port, path := path }
+
+/-- the address text as net/url.Parse sees it: service names replaced by port numbers, "//" prepended unless the text
+contains "//" or starts with "/" -/
+def urlText (input : Bytes) : Bytes :=
+  let str := replaceFirst input b!":https" (b!":" ++ httpsPort)
+  let str := replaceFirst str b!":http" (b!":" ++ httpPort)
+  if !containsSub str b!"//" && !hasPrefix str b!"/" then b!"//" ++ str else str
+
 /-- standardizeAddress -/
 def standardizeAddress (input : Bytes) : Except AddrErr Address :=
   if !inAddrDomain input then .error .outOfModel
   else
-    let str := replaceFirst input b!":https" (b!":" ++ httpsPort)
-    let str := replaceFirst str b!":http" (b!":" ++ httpPort)
-    let str := if !containsSub str b!"//" && !hasPrefix str b!"/" then b!"//" ++ str else str
-    match urlParse str with
+    match urlParse (urlText input) with
     | none => .error .url
-    | some (scheme, uhost, path) =>
-      let (host, port) := match splitHostPort uhost with
-        | some hp => hp
-        | none => match splitHostPort (uhost ++ b!":") with
-          | some hp => hp
-          | none => (uhost, [])
-      let port := if port.isEmpty then
-          (if scheme == b!"http" then httpPort else if scheme == b!"https" then httpsPort else port)
-        else port
-      if (scheme == b!"http" && port == httpsPort) || (scheme == b!"https" && port == httpPort) then .error .convention
-      else
-        let scheme := if scheme.isEmpty then
-            (if port == httpPort then b!"http" else if port == httpsPort then b!"https" else scheme)
-          else scheme
-        .ok { original := input, scheme := scheme, host := host, port := port, path := path }
+    | some (scheme, uhost, path) => finishStandardize input scheme uhost path
+
+/-- what Address.Normalize does to an IP-literal host before lower-casing: net.ParseIP(host).String() -/
+def canonHost (h : Bytes) : Bytes :=
+  match parseIP h with
+  | some ip => ipString ip
+  | none => h
 
 /-- Address.Normalize (CaseSensitivePath = false, its default) -/
 def Address.normalize (a : Address) : Address :=
@@ -144,6 +163,20 @@ def Address.string (a : Address) : Bytes :=
       then s ++ joinHostPort a.host a.port else s ++ a.host
     s ++ a.path
 
+/-- the address with the default port filled in (`addrCopy` of InspectServerBlocks) -/
+def Address.filled (a : Address) : Address :=
+  let copy := if a.port.isEmpty then { a with port := defaultPort } else a
+  if copy.path == b!"/" then { copy with path := [] } else copy   -- "host" and "host/" are one site (fix 76cc3c3)
+
+/-- the text under which InspectServerBlocks books a site in `siteAddrs`: Address.String with the default port filled in -/
+def Address.siteString (a : Address) : Bytes := a.filled.string
+
+/-- standardizeAddress then Normalize: the Address InspectServerBlocks works with (none = standardizeAddress fails) -/
+def normalizedAddr (k : Bytes) : Option Address :=
+  match standardizeAddress k with
+  | .ok a => some a.normalize
+  | .error _ => none
+
 /-- the address bookkeeping of InspectServerBlocks over the keys in order (host and port flags at their defaults):
 `keys`/`addrs` = the maps keysToSiteConfigs / siteAddrs so far -/
 def inspectGo : List Bytes → List Bytes → List Bytes → List Address → Except AddrErr (List Address)
@@ -157,6 +190,7 @@ def inspectGo : List Bytes → List Bytes → List Bytes → List Address → Ex
       if keys.contains key then .error .dupKey
       else
         let copy := if a.port.isEmpty then { a with port := defaultPort } else a
+        let copy := if copy.path == b!"/" then { copy with path := [] } else copy   -- "host" and "host/" are one site
         let s := copy.string
         if addrs.contains s then .error .dupAddr
         else inspectGo rest (key :: keys) (s :: addrs) (a :: acc)
